@@ -69,6 +69,9 @@ impl Harness for C13 {
         Conn::Y(p) => p.observable(),
       }
     };
+    // subscribers come through one shared `.observable()` handle or through a fresh one each
+    let shared_handle = sym::choose("shared_handle", 2) == 1;
+    let the_handle = observable(&conn);
     let no = self.observers;
     let mut recs: Vec<Option<Recorder>> = (0..no).map(|_| None).collect();
     let mut subs: Vec<Option<Subscription<'static>>> = (0..no).map(|_| None).collect();
@@ -139,7 +142,7 @@ impl Harness for C13 {
           }
           trace.push(format!("sub{}", j));
           let rec = Recorder::labelled(&format!("{}", j));
-          let o = observable(&conn);
+          let o = if shared_handle { the_handle.clone() } else { observable(&conn) };
           let o = if take1 { o.take(1) } else { o };
           let mut r = RObs { live: true, free: false, items: vec![], end: REnd::Silent };
           // reference: what the newcomer gets before going live
